@@ -207,6 +207,7 @@ type upstream struct {
 	accepted bool
 	recv     []byte
 	eof      bool // the read side ended (EOF or error)
+	clean    bool // ... with io.EOF (FIN) rather than an error (reset)
 	lastProg time.Time
 	finished chan struct{}
 }
@@ -231,6 +232,9 @@ type script struct {
 	Note    string
 	Class   string
 	BadPref bool
+	Slow    bool // the upstream consumes slowly (32 KiB per millisecond)
+	Bulk    bool // multi-MiB client stream: only its structure goes to Coq
+	HeadLen int  // bulk: the first HeadLen bytes of Stream are the literal head (ClientHello)
 }
 
 const wsReq = "GET /ws HTTP/1.1\r\nHost: front.example\r\nConnection: Upgrade\r\nUpgrade: websocket\r\nSec-WebSocket-Key: dGhlIHNhbXBsZSBub25jZQ==\r\nSec-WebSocket-Version: 13\r\n\r\n"
@@ -268,8 +272,14 @@ func startUpstream(s *script) *upstream {
 		go func() {
 			defer close(rdDone)
 			buf := make([]byte, 65536)
+			if s.Slow {
+				buf = buf[:32768]
+			}
 			for {
 				n, err := br.Read(buf)
+				if s.Slow {
+					time.Sleep(time.Millisecond) // slow consumer
+				}
 				u.mu.Lock()
 				if n > 0 {
 					u.recv = append(u.recv, buf[:n]...)
@@ -277,6 +287,7 @@ func startUpstream(s *script) *upstream {
 				}
 				if err != nil {
 					u.eof = true
+					u.clean = err == io.EOF
 				}
 				u.cond.Broadcast()
 				u.mu.Unlock()
@@ -346,6 +357,18 @@ func startUpstream(s *script) *upstream {
 	return u
 }
 
+func (u *upstream) progress() (n int, last time.Time) {
+	u.mu.Lock()
+	defer u.mu.Unlock()
+	return len(u.recv), u.lastProg
+}
+
+func (c *cliConn) progress() (n int, closed bool, last time.Time) {
+	c.mu.Lock()
+	defer c.mu.Unlock()
+	return c.recv.Len(), c.closed, c.lastProg
+}
+
 func (u *upstream) snapshot() (recv []byte, accepted, eof bool, last time.Time) {
 	u.mu.Lock()
 	defer u.mu.Unlock()
@@ -354,6 +377,7 @@ func (u *upstream) snapshot() (recv []byte, accepted, eof bool, last time.Time) 
 
 type observation struct {
 	Conn     bool
+	UpClean  bool // the upstream's stream ended with a clean EOF
 	Up       []byte
 	Cl       []byte
 	Panicked bool
@@ -455,8 +479,8 @@ func runOnce(s *script) observation {
 		if servedDone {
 			break
 		}
-		clRecv, closed, clLast, _ := cli.snapshot()
-		upRecv, _, _, upLast := u.snapshot()
+		clN, closed, clLast := cli.progress()
+		upN, upLast := u.progress()
 		if closed {
 			continue
 		}
@@ -465,7 +489,7 @@ func runOnce(s *script) observation {
 			last = upLast
 		}
 		idle := time.Since(last)
-		full := len(upRecv) >= wantUp && len(clRecv) >= wantCl
+		full := upN >= wantUp && clN >= wantCl
 		// nobody will finish: stop when everything expected has arrived and things are quiet, or nothing moves any more
 		if (full && idle > 40*time.Millisecond && s.CEnd == cStay) || idle > 700*time.Millisecond || time.Since(start) > 15*time.Second {
 			if time.Since(start) > 15*time.Second {
@@ -486,7 +510,7 @@ func runOnce(s *script) observation {
 	}
 	select {
 	case <-u.finished:
-	case <-time.After(3 * time.Second):
+	case <-time.After(time.Duration(3+len(s.Stream)>>18) * time.Second):
 		u.ln.Close()
 		select {
 		case <-u.finished:
@@ -496,16 +520,19 @@ func runOnce(s *script) observation {
 	obs.Panicked = panicked
 	obs.Cl, _, _, _ = cli.snapshot()
 	obs.Up, obs.Conn, _, _ = u.snapshot()
+	u.mu.Lock()
+	obs.UpClean = u.eof && u.clean
+	u.mu.Unlock()
 	return obs
 }
 
 func sameObs(a, b observation) bool {
-	return a.Conn == b.Conn && bytes.Equal(a.Up, b.Up) && bytes.Equal(a.Cl, b.Cl) && a.Panicked == b.Panicked
+	return a.Conn == b.Conn && a.UpClean == b.UpClean && bytes.Equal(a.Up, b.Up) && bytes.Equal(a.Cl, b.Cl) && a.Panicked == b.Panicked
 }
 
 // complete: both directions delivered everything a transparent tunnel would
 func complete(s *script, o observation) bool {
-	return bytes.Equal(o.Up, specUp(s)) && bytes.Equal(o.Cl, s.Reply)
+	return bytes.Equal(o.Up, specUp(s)) && bytes.Equal(o.Cl, s.Reply) && (!s.Bulk || o.UpClean)
 }
 
 // run with an immediate replay when the first run shows a loss: kernel timing is
@@ -516,8 +543,8 @@ func runCase(s *script) (observation, int) {
 		return a, 1
 	}
 	b := runOnce(s)
-	if sameObs(a, b) || complete(s, b) {
-		return b, 2
+	if sameObs(a, b) || complete(s, b) || (s.Bulk && !complete(s, b)) {
+		return b, 2 // bulk: where the stream is cut differs from run to run; a second incomplete run is a repeat
 	}
 	c := runOnce(s)
 	if sameObs(c, a) {
@@ -917,6 +944,27 @@ func coqScript(s *script, o observation) string {
 		vh.Bool(o.Conn), describe(o.Up, full, lineLen+s.Lit), describe(o.Cl, s.Reply, s.RLit))
 }
 
+// a multi-MiB connection: the head (PROXY line + ClientHello) goes to Coq byte for byte, the
+// bulk payload as its length; the received bytes are compared with the sent ones here
+func coqBulk(s *script, o observation) string {
+	ch, cp, _ := net.SplitHostPort(s.Remote.String())
+	sh, sp, _ := net.SplitHostPort(s.Local.String())
+	is4 := net.ParseIP(ch).To4() != nil
+	full := specUp(s)
+	prefix := len(o.Up) <= len(full) && bytes.Equal(o.Up, full[:len(o.Up)])
+	headItems := []string{}
+	if s.HeadLen > 0 {
+		headItems = append(headItems, vh.N(s.HeadLen))
+	}
+	oh := o.Up
+	if hl := len(full) - len(s.Stream) + s.HeadLen; len(oh) > hl {
+		oh = oh[:hl]
+	}
+	return vh.App("CBulk", kindCoq[s.Kind], vh.Bool(s.PP), vh.Bool(is4), vh.HxS(ch), vh.HxS(sh), vh.HxS(cp), vh.HxS(sp),
+		vh.Hx(s.Stream[:s.HeadLen]), vh.List(headItems), vh.N(len(s.Stream)-s.HeadLen),
+		vh.Bool(o.Conn), vh.Hx(oh), vh.N(len(o.Up)), vh.Bool(prefix), vh.Bool(o.UpClean))
+}
+
 func main() {
 	run := vh.Start("C09")
 	r := run.Rng
@@ -1108,6 +1156,52 @@ func main() {
 		}
 	}
 	run.Notes["replayed_cases"] = replays
+
+	// 3b. the client finishes first while the proxy still holds bytes for a slow upstream:
+	// several MiB (more than the socket buffers) in 50000-byte segments, then a full close;
+	// the upstream reads 32 KiB per millisecond and never replies.  One at a time.
+	bulkRuns := 0
+	for i := 0; i < run.Scale(3, 12); i++ {
+		kind := []int{kTCP, kSNI, kDyn}[i%3]
+		s := &script{Kind: kind, PP: kind != kDyn && r.Intn(2) == 0, Local: randAddr(r), Remote: randAddr(r),
+			CEnd: cClose, UEnd: uStay, UTrig: uOnEOF, Slow: true, Bulk: true}
+		n := 8 << 20
+		if run.Thorough() {
+			n = []int{4 << 20, 8 << 20, 12 << 20, 16 << 20}[r.Intn(4)] + r.Intn(70000)
+		}
+		body := randBytes(r, n)
+		if kind == kSNI {
+			hello := realHello(r, hosts[r.Intn(len(hosts))])
+			if hello == nil {
+				run.Exclude("crypto/tls client produced no hello")
+				continue
+			}
+			s.HeadLen = len(hello)
+			s.Stream = append(hello, body...)
+			s.Segs = []int{len(hello)}
+		} else {
+			s.Stream = body
+		}
+		for left := n; left > 0; {
+			k := min(left, 50000)
+			s.Segs = append(s.Segs, k)
+			left -= k
+		}
+		s.Class = kindName[kind] + "-client-finishes-first-slow-upstream"
+		o, nruns := runCase(s)
+		bulkRuns += nruns
+		sample := map[string]interface{}{"kind": kindName[kind], "pxyproto": s.PP, "client": s.Remote.String(), "listener": s.Local.String(),
+			"stream_len": len(s.Stream), "segments": len(s.Segs), "cend": "CClose", "upstream": "reads 32 KiB per ms, never replies",
+			"upstream_got": len(o.Up), "upstream_expected": len(specUp(s)), "clean_eof": o.UpClean, "connected": o.Conn, "runs": nruns}
+		id := run.Add(s.Class, coqBulk(s, o), sample)
+		if o.Panicked {
+			run.Violation(id, "C09 panic inside the tunnel code ("+kindName[kind]+")", sample)
+		}
+		if debug {
+			fmt.Fprintf(os.Stderr, "%4d %-48s up %8d/%8d clean=%v conn=%v runs=%d\n", id, s.Class, len(o.Up), len(specUp(s)), o.UpClean, o.Conn, nruns)
+		}
+	}
+	run.Notes["bulk_runs"] = bulkRuns
 
 	// 4. the bufio.Reader model against the real bufio.Reader
 	for i := 0; i < run.Scale(150, 2500); i++ {
